@@ -139,6 +139,40 @@ PROPS = {
                     "real panics / peak allocation / termination are runtime observations of the harness, not theorems"],
         "technique": "Lean 4 proofs over a model with explicit panic branches and a pre-allocation counter; kernel-checked negation witness; differential correspondence under catch_unwind with a counting allocator in worker processes",
     },
+    "C12": {
+        "extractors": [],
+        "harness": "C12",
+        "theorems": ["ChiaModel.C12.root_canonical", "ChiaModel.C12.root_perm", "ChiaModel.C12.root_dedup",
+                     "ChiaModel.C12.roots_agree", "ChiaModel.C12.complete", "ChiaModel.C12.sound",
+                     "ChiaModel.C12.parse_rejects_trailing", "ChiaModel.C12.parse_rejects_deep", "ChiaModel.C12.parse_total"],
+        "gen_theorems": [],
+        "open": [],
+        "trivial": r"^(ERR|bad-op)",
+        "level": "proof",
+        "rule": "leaf sets: the empty set, 8 singletons, all 28 pairs and all 56 triples of an 8-leaf pool engineered to share prefixes of 0/1/2/128/254/255 bits, the whole pool, "
+                "the two trees of the Rust unit tests, 60 (thorough: 1500) random sets of 0-40 leaves with duplicates and leaves forked from earlier ones at bits {255,254,253,248,247,128,9,8,7,1,0,random}; "
+                "each set through compute_merkle_set_root and MerkleSet::from_leafs().get_root() in several orders and with duplicates added (root), generate_proof for members and engineered non-members "
+                "(proof, byte-for-byte), validate_merkle_proof of every honest proof against the honest root, for the right and for other items (validate/sound). "
+                "Adversarial proofs: every honest proof rewritten at every node (swap sides, truncate the sub-tree with its real hash / a junk hash, Empty<->Term<->Trunc tag changes, "
+                "leaf<->middle expansion, one more / one less level in a one-sided chain, flip leaf bit 0/1/7/8/254/255/random), appended and cut bytes, bad tags, empty input, wrapping in 1..258 one-sided levels; "
+                "sampled down to 50 (thorough: 600) per honest proof and rationed by hashing cost (the kernel-evaluable SHA-256 of the model runs at ~4000 compressions/s); each against the honest root "
+                "(claimed membership known to the harness: a contradicting verdict is marked UNSOUND) and, when it parses, against its own root (exercises the walk on odd trees). "
+                "Depth guard: chains of 255..258 (thorough 253..300) levels over 4-6 bottoms incl. the u8 wrap of the walk depth; MIDDLE-only inputs. "
+                "Bounded-exhaustive: all proof trees with <= 5 (thorough <= 7) nodes over {Empty, Term a/b/c, Trunc(hash{a,b}), Trunc(c)} x roots of all 8 subsets of {a,b,c} and own root x 4 items. "
+                "non-trivial = distinct case whose model output is not ERR",
+        "level_text": "Proof: for an arbitrary hash H with 32-byte digests (instantiated with the kernel-evaluable SHA-256) and all lists of 32-byte leaves of any length: "
+                      "(a) compute_merkle_set_root equals the reference collapsed binary-trie hash Spec.root of any enumeration of the same set, hence is invariant under permutation and duplication (root_canonical, root_perm, root_dedup); "
+                      "(b) the node vector built by MerkleSet::from_leafs has the same root (roots_agree); "
+                      "(c) generate_proof returns exactly the membership flag and validate_merkle_proof accepts the generated bytes against the root with that verdict, for every item (complete); "
+                      "(d) from_proof rejects every proper extension of an accepted proof and every serialised proof tree with more than 257 nested MIDDLEs (parse_total; tightness shown by kernel evaluation at 257/258); "
+                      "(e) for EVERY byte string p: a verdict of validate_merkle_proof against the root of S equals membership in S, or p exhibits an explicit SHA-256 collision or a pre-image of the all-zero digest (sound) - no injectivity assumed. "
+                      "The node vector with index redirection of collapsed (Empty, MidDbl) levels, the bit-position audit incl. the `pos as u8` wrap, the depth guard and the u8 walk depth are modelled as in the Rust code; the model is tied to the code by correspondence.",
+        "level_note": "Trusted: Lean kernel + 3 standard axioms; model = code only on the cases run (roots, proof bytes, verdicts compared on every case). Modelled, not verified: the in-place two-pointer partition of radix_sort "
+                      "(functional partition in the model), the explicit stack machine of deserialize_proof_impl (recursive descent with the same visiting order, depth counter and bit route in the model). "
+                      "The walk depth of generate_proof_impl is a u8: the model wraps (release build, overflow-checks off); a build with overflow checks would panic instead on a proof nested 256 deep that matches its own root.",
+        "technique": "Lean 4 executable model + theorems for all inputs (induction on trie depth / parser fuel, refinement of the node vector to an inductive tree) + differential correspondence",
+        "trusted": ["hypothesis of complete/sound: H returns 32-byte digests (proved for the model's SHA-256: sha256_length); leaves are 32-byte strings (IsLeaf) as in the Rust type [u8; 32]"],
+    },
     "C17": {
         "extractors": ["precomputed"],
         "harness": "C17",
@@ -330,4 +364,66 @@ PROPS["C15"] = {
     "trusted": ["blst (pairing, hash_to_g2, point validity) idealised as BlsIdeal: free Z-module on augmented-message generators; every real verdict is compared with the ideal one",
                 "linked-hash-map insertion-order semantics (insert of an existing key moves it to the back) modelled by hand; FIFO order is observed on every case",
                 "schedules with real threads require repo_hook_c15.patch (cargo feature verif-hooks of chia-bls); without it only sequential histories are run"],
+}
+
+
+PROPS["C16"] = {
+    "extractors": [],
+    "harness": "C16",
+    "theorems": [
+        "ChiaModel.C16.endianness", "ChiaModel.C16.endianness_digest",
+        "ChiaModel.C16.derive_commutes", "ChiaModel.C16.deriveSk_lt", "ChiaModel.C16.derive_path_commutes", "ChiaModel.C16.wallet_commutes",
+        "ChiaModel.C16.add_hom",
+        "ChiaModel.C16.groupOrderBytes_val", "ChiaModel.C16.modByGroupOrder_spec",
+        "ChiaModel.C16.synthetic_offset_total", "ChiaModel.C16.synthetic_commutes", "ChiaModel.C16.synthetic_total",
+        "ChiaModel.C16.sk_roundtrip",
+        "ChiaModel.C16.flag_bits_table", "ChiaModel.C16.flag_bits_errors", "ChiaModel.C16.flag_bits_vs_format",
+        "ChiaModel.C16.flag_bits_bytes", "ChiaModel.C16.flag_bits_g2",
+        "ChiaModel.C16.checked_subset_unchecked", "ChiaModel.C16.checked_rejects",
+        "ChiaModel.C16.roundtrip_under_codec", "ChiaModel.C16.roundtrip_under_codec_g2", "ChiaModel.C16.oracle_unique_encoding",
+        "ChiaModel.C16.gt_roundtrip", "ChiaModel.C16.sign_deterministic", "ChiaModel.C16.sign_verifies",
+    ],
+    "gen_theorems": [],
+    "open": [
+        "G1Codec / G2Codec (blst: compress and uncompress are mutually inverse on accepted inputs, infinity = c0 00..00, flag bits of a finite point, "
+        "format table for G2, no valid point with x = k*2^376) are named HYPOTHESES of roundtrip_under_codec(_g2), not proved: the curve, its compression and "
+        "the subgroup test are blst's; every clause is monitored against real blst on each run (stage 2 of DESIGN, an executable BLS12-381 G1 in Lean, is not built)",
+        "the group-level theorems (derive_commutes, synthetic_commutes, add_hom) are about the scalar model (pk = sk mod r); that blst's G1 realises it is trusted and "
+        "compared on every derive/synth/add case",
+        "derive_hardened / from_seed (EIP-2333, HKDF inside blst_keygen_v3) are not modelled: the property does not constrain them; their outputs are used as further secret keys",
+    ],
+    "trivial": r"^(bad-op|bad-sk|bad-path)",
+    "level": "proof",
+    "rule": "2200 seeds (quick; 20000 thorough) -> SecretKey::from_seed (32/33/64-byte seeds); per seed: rt sk, rt g1 of the public key + coordinate-bit and sign-bit "
+            "perturbations (every 20th: each flag-bit flip, x+p, last byte +1), derive along a path of length 1-4 with indices from {0,1,2^31,2^32-1,2^31-1,2^24,small,random} "
+            "(every 5th also master_to_wallet_unhardened(_intermediate) for both key types, every 7th a derive_hardened child as a further start), synth with hidden puzzle hash "
+            "default/00../ff../random, add with the previous key (every 10th: sk+(r-sk)=0 and sk+sk), modr on a random 32-byte string with forced leading byte classes (+ sk, sk+r, -sk), "
+            "sign twice + signature round trip + verify against same/other key/other message (every 2nd seed), every 8th: rt g2 of the signature + perturbations, GT of a real pairing. "
+            "Exhaustive: all 256 first bytes x tails {zero, 00..01, tail of a valid point} for G1 (incl. the 62 encodings x = k*2^376) and G2; all 8 flag combinations on valid points; "
+            "x in {p-2,p-1,p,p+1} (G1, both G2 components); x = 0..299 with both signs (G1, G2: on-curve/off-subgroup points found by blst), infinity, generators; "
+            "sk in {0,1,2,r-2,r-1,r,r+1,2^256-1,...} through every operation; modr boundaries {0,1,r-1,r,r+1,2r,-1,-2,-r-1,-r,-r+1,-2^255,2^255-1,...}; /repo's own derivation test vectors; "
+            "malformed stream: 400 random 48/96/32-byte strings. Oracle fields u,v on rt lines come from raw blst FFI calls in the harness (blst_pN_uncompress, blst_pN_affine_in_gN), "
+            "not through chia-bls; the sk=pk table on derive/synth/add/sign lines is SecretKey::public_key().to_bytes(). The harness also evaluates the property on the "
+            "implementation's own results (prop=). non-trivial = distinct case on a well-formed line",
+    "level_text": "Proof of everything that is logic of /repo, for all inputs: endianness (the PublicKey route multiplies the generator by exactly the big-endian integer of the digest that the "
+                  "SecretKey route adds: lendian -> scalar -> bendian -> little-endian read by blst_p1_mult); derive_commutes / derive_path_commutes / wallet_commutes (in the scalar model "
+                  "pk = sk mod r: pkOf(derive_unhardened(sk,i)) = derive_unhardened(pkOf sk, i) for every index and, by induction, every path incl. master_to_wallet_unhardened); "
+                  "synthetic_commutes + synthetic_offset_total (synthetic secret key's public key = synthetic public key; the unwrap in synthetic_offset cannot fail); add_hom; "
+                  "modByGroupOrder_spec (for every input length: result = 32-byte big-endian of the signed value mod r, < r; truncating % repaired, minimal to_bytes_be re-padded); "
+                  "sk_roundtrip (from_bytes accepts iff value < r, zero included; accepted strings re-serialise to themselves; unique); flag_bits_table / flag_bits_errors / flag_bits_vs_format "
+                  "(all 256 first bytes x zero/non-zero tail by kernel evaluation: the code implements the ZCash format table except that it also rejects x = k*2^376; Signature has no rule of its own); "
+                  "checked_subset_unchecked / checked_rejects (checked = unchecked and subgroup test, also for Streamable::parse<TRUSTED>); roundtrip_under_codec(_g2) (round trip and unique encoding "
+                  "of public keys and signatures, with blst's codec contract G1Codec/G2Codec as explicit named hypotheses, non-vacuous); gt_roundtrip; sign_deterministic / sign_verifies in the ideal BLS of C15. "
+                  "The correspondence runs every sentence of the property on the real code with real blst.",
+    "level_note": "Trusted: Lean kernel + 3 standard axioms; blst realises the prime-order group law of the scalar model and the point codec contract (G1Codec/G2Codec: hypotheses, monitored on every rt case "
+                  "through raw FFI calls and on every derive/synth/add case through real public keys); num-bigint (from_signed_bytes_be, truncating %, to_bytes_be) modelled by hand and compared on every modr case; "
+                  "the model's own SHA-256 is compared with chia-sha2 on every derived key; GROUP_ORDER_BYTES is a literal of the model (tied by the modr boundary cases, not by the translator); "
+                  "mod_by_group_order takes [u8;32] in Rust - other lengths are covered by the theorem only. Observation (not a violation): PublicKey::from_bytes_unchecked rejects 62 encodings "
+                  "8k/ak 00..00 (x = k*2^376) as G1InfinityNotZero although blst finds a curve point for 28 of them; none is in the subgroup, so from_bytes and round trips are unaffected.",
+    "technique": "Lean 4 proofs over an executable scalar model of G1 + byte-level models of the wrappers (kernel-evaluated finite tables, induction over paths), blst as a record of functions with its "
+                 "contract as hypotheses; differential correspondence with real blst as oracle",
+    "trusted": ["blst: G1 is a group of prime order r generated by blst_p1_generator, blst_p1_mult multiplies by the given integer, blst_sk_add_n_check / blst_scalar_from_be_bytes reduce mod r, "
+                "blst_sk_check = [1, r) - the scalar model; compared with the real library on every derive/synth/add/rt-sk case",
+                "blst point codec: G1Codec / G2Codec (hypotheses of roundtrip_under_codec, monitored via raw FFI oracle calls on every rt case)",
+                "num-bigint BigInt::from_signed_bytes_be / % / to_bytes_be modelled by hand (compared on every modr case)"],
 }
